@@ -50,7 +50,7 @@ var readOnlyCmds = [][]string{
 }
 
 // runReadOnly writes text to a temporary file and runs every read-only command on it.
-func runReadOnly(text string, cmds [][]string, now time.Time) []M {
+func runReadOnly(text string, cmds [][]string, now time.Time, cpus int) []M {
 	dir, err := os.MkdirTemp("", "kdrive")
 	if err != nil {
 		panic(err)
@@ -64,7 +64,14 @@ func runReadOnly(text string, cmds [][]string, now time.Time) []M {
 	}
 	fakeNow = now
 	app.VerifNow = func() time.Time { return fakeNow }
-	config := app.NewDefaultConfig(tf.COLOUR_THEME_DARK)
+	if cpus < 1 {
+		cpus = 1
+	}
+	config, cErr := app.NewConfig(app.FromDeterminedValues{NumCpus: cpus}, app.FromEnvVars{GetVar: func(string) string { return "" }},
+		app.FromConfigFile{FileContents: "colour_scheme = dark\n"})
+	if cErr != nil {
+		panic(cErr.Error())
+	}
 	res := []M{}
 	for _, args := range cmds {
 		full := append(append([]string{}, args...), file)
@@ -121,8 +128,13 @@ func hFuzz(c M) M {
 		if n := str(c, "now"); n != "" {
 			now = parseNow(n)
 		}
-		o["cmds"] = runReadOnly(text, cmds, now)
+		o["cmds"] = runReadOnly(text, cmds, now, num(c, "cpus"))
 	} else {
+		// a rejected text: the commands must refuse it as well (on several CPUs they parse in parallel);
+		// done for the cases that name a number of CPUs
+		if num(c, "cpus") > 0 {
+			o["cmds"] = runReadOnly(text, [][]string{{"total"}, {"print", "--no-style"}, {"json"}}, time.Date(2020, 1, 1, 12, 0, 0, 0, caseLoc), num(c, "cpus"))
+		}
 		_, _, errs := serial.Parse(text)
 		o["render_panic"] = try(func() {
 			msg := util.PrettifyParsingError(app.NewParserErrors(errs), tf.NewStyler(tf.COLOUR_THEME_DARK)).Error()
